@@ -54,10 +54,10 @@ prop("C06", M(["At", "Slice", "Patch", "Reshape", "Flatten", "Squeeze", "UnSquee
               ("TestConstructors", "the assumed contract of initConcatResultTensor; cross-check of the proved constTensor / eyeMatrix / TensorOf (initTensorFromData)", "ranks <= 4, sizes <= 3; Concat of 2..3 operands along every dim")],
      paper=["PROD: element count of unsqueezed / squeezed / flattened shapes (LEX - the odometer successor increments the row-major position - is machine-checked)"],
      expl="Validators are characterised exactly; Slice / Patch / At / Concat / Reshape family / Broadcast / constructors are proved against the contracts of the L2 leaf functions (index arithmetic: completeIndex, rfrom/rwidth, catoff); the leaf functions are proved as well (generator protocol with initWith.fill, copiedSliceOf, dataAt, the row-major position theory LEX) except copiedWithPatchOf and initConcatResultTensor, which are assumed with bounded stand-ins. TensorOf is proved too: ValidateInputDataDimUnity accepts exactly the rectangular inputs without an empty dimension (typed nested slices held by an interface value), initTensorFromData builds a tree of exactly that shape whose leaves are the corresponding input elements (ten nested loops, one invariant each), and nothing of the caller's slices is kept.")
-prop("C07", G(["Broadcast"]) + ["cputensor.broadcastForBinaryOp", "cputensor.broadcastForMatMul", "cputensor.CPUTensor.Broadcast"],
+prop("C07", G(["Broadcast"]) + ["cputensor.broadcastForBinaryOp", "cputensor.broadcastForMatMul", "cputensor.CPUTensor.Broadcast"] + M(AR + ["Dot", "MatMul"]),
      bounded=[("TestBroadcastGrad", "value of the Broadcast rule: the gradient of the source is the SUM of the upstream gradient over all copies (explicit Broadcast and implicit expansion in Add/Sub/Mul/Div/Dot/MatMul, either operand)", "all (source, target) pairs with target rank <= 3 and sizes <= 3, expansion factor 1 included")],
      paper=["Fubini: iterated fibre sums equal the sum over the pre-image"],
-     expl="Proved: the rule never fails, returns a gradient of exactly the source's shape (two loops with rank / dims invariants) and every implicit expansion goes through the public Broadcast (so this rule sits on it). The value (sum, not mean) is decided by the bounded stand-in.")
+     expl="Proved: the rule never fails, returns a gradient of exactly the source's shape (two loops with rank / dims invariants) and every implicit expansion goes through the public Broadcast, so this rule sits on it: for Add / Sub / Mul / Div / Dot / MatMul the two back edges of a tracked result are proved to target the broadcast images of the respective operands (of the result's / the contraction's shape), each of which carries exactly one back edge - the Broadcast rule - to the operand itself. The value (sum, not mean) is decided by the bounded stand-in.")
 prop("C08", G(RULES + ["Broadcast", "NewGradContext", "NewDirtyGradContext", "anyIsBPDirty", "nonIsTracked", "gradContextOf"]) + BACKPROP + PUBLIC_TENSOR + ["tensor.Full", "tensor.Concat"],
      bounded=[("TestTrackingHistory", "completeness of the walk: every tracked tensor the root was computed from receives a gradient (the converse direction is proved)", "random histories of <= 12 operations over <= 4 leaves (create / unary / binary / comparison / BackPropagate / ResetGradContext), 300 (quick) / 3000 (thorough) histories")],
      paper=["MONO: 'marked' is stable under the monotone heap changes of backward", "induction over histories: the representation invariant and the per-operation postconditions are all a history can observe"],
